@@ -124,6 +124,7 @@ theorem C03_plain_invocation_arguments (P : Program) (d : DagRef) (val : Node â†
         | slept => simp at hf
         | doneOk => simp at hf
         | doneExc => simp at hf
+        | doneExcSaved => simp at hf
 
 /-- no argument of a node of a plain pipeline is a failure object or a `Recurrent` marker -/
 theorem C03_plain_no_failure_objects (P : Program) (d : DagRef) (val : Node â†’ Option Val) (hp : PlainP P d)
